@@ -75,14 +75,17 @@ func Corpus() *Program {
 		fld("DurV", 3, KDuration, nonNull()), fld("DurP", 4, KDuration),
 		fld("DurC", 5, KInt64, cast(DurationCastName)),
 		fld("Times", 6, KTime, list(), nonNull()), fld("Durs", 7, KDuration, list(), nonNull()),
-		fld("DurCs", 8, KInt64, list(), cast(DurationCastName)))
+		fld("DurCs", 8, KInt64, list(), cast(DurationCastName)),
+		fld("TimesP", 9, KTime, list()), fld("DursP", 10, KDuration, list()))
 
 	msg("Collections", nil,
 		fld("Strs", 1, KString, list()), fld("Blobs", 2, KBytes, list()), fld("Ints", 3, KInt64, list()),
 		fld("Flags", 4, KBool, list()), fld("Modes", 5, KEnum, ref("Mode"), list()),
 		fld("Floats", 6, KFloat, list()),
 		fld("MapStr", 7, KString, mapOf()), fld("MapInt", 8, KInt32, mapOf()), fld("MapBool", 9, KBool, mapOf()),
-		fld("MapMode", 10, KEnum, ref("Color"), mapOf()))
+		fld("MapMode", 10, KEnum, ref("Color"), mapOf()),
+		fld("CastStrs", 12, KString, list(), cast("MyString")),
+		fld("MapTime", 14, KTime, mapOf(), nonNull()), fld("MapDur", 15, KDuration, mapOf(), nonNull()))
 
 	msg("Nesting", nil,
 		fld("Ptr", 1, KMessage, ref("Mid")), fld("Val", 2, KMessage, ref("Mid"), nonNull()),
